@@ -141,6 +141,25 @@ pub fn held_remove(n: i64) -> Option<Held> {
     .ok()
     .flatten()
 }
+/// Takes the entry with that name (the innermost one when n is 0) out for a call that consumes it;
+/// `held_put` puts the result back where it was: the entry need not be the innermost one.
+pub fn held_take(n: i64) -> Option<(usize, i64, Held)> {
+    HELD.try_with(|v| {
+        let mut v = v.borrow_mut();
+        let i = if n == 0 { v.len().checked_sub(1)? } else { v.iter().rposition(|x| x.0 == n)? };
+        let (name, h) = v.remove(i);
+        Some((i, name, h))
+    })
+    .ok()
+    .flatten()
+}
+pub fn held_put(pos: usize, n: i64, h: Held) {
+    let _ = HELD.try_with(|v| {
+        let mut v = v.borrow_mut();
+        let pos = pos.min(v.len());
+        v.insert(pos, (n, h));
+    });
+}
 pub fn held_top_name() -> Option<i64> {
     HELD.try_with(|v| v.borrow().last().map(|x| x.0)).ok().flatten()
 }
@@ -491,7 +510,7 @@ fn do_op(
             let cc = Cell::new(0u32);
             let k = own(kvs);
             let re = step["re"].as_bool().unwrap_or(false);
-            let single = k.len() == 1 && rc.variant(step["kvs"][0][0].as_i64().unwrap_or(0), 2) == 1;
+            let single = !re && k.len() == 1 && rc.variant(step["kvs"][0][0].as_i64().unwrap_or(0), 2) == 1;
             let body = || {
                 cc.set(cc.get() + 1);
                 if re {
@@ -509,17 +528,23 @@ fn do_op(
             } else {
                 LocalSpan::add_properties(|| {
                     body();
-                    k
+                    // ... and so may the iterator the closure returns
+                    k.into_iter().map(move |kv| {
+                        if re {
+                            let _ = SpanContext::current_local_parent();
+                        }
+                        kv
+                    })
                 });
             }
             out.insert("cc".into(), json!(cc.get()));
         }
-        "lwith" => match held_pop() {
-            Some((n, Held::Local(span))) => {
+        "lwith" => match held_take(geti("l")) {
+            Some((pos, n, Held::Local(span))) => {
                 let cc = Cell::new(0u32);
                 let k = own(kvs);
                 let re = step["re"].as_bool().unwrap_or(false);
-                let single = k.len() == 1 && rc.variant(step["kvs"][0][0].as_i64().unwrap_or(0), 2) == 1;
+                let single = !re && k.len() == 1 && rc.variant(step["kvs"][0][0].as_i64().unwrap_or(0), 2) == 1;
                 let body = || {
                     cc.set(cc.get() + 1);
                     if re {
@@ -535,14 +560,19 @@ fn do_op(
                 } else {
                     span.with_properties(|| {
                         body();
-                        k
+                        k.into_iter().map(move |kv| {
+                            if re {
+                                let _ = SpanContext::current_local_parent();
+                            }
+                            kv
+                        })
                     })
                 };
                 out.insert("cc".into(), json!(cc.get()));
-                held_push(n, Held::Local(span));
+                held_put(pos, n, Held::Local(span));
             }
-            Some(other) => {
-                HELD.with(|v| v.borrow_mut().push(other));
+            Some((pos, n, other)) => {
+                held_put(pos, n, other);
                 out.insert("harness".into(), json!("ill-nested"));
             }
             None => {
